@@ -896,6 +896,81 @@ def observe_writer_table(tmp):
     return table
 
 
+# ---- writers constructed on a CALLER-SUPPLIED file object (the caller keeps its reference) ----
+
+GIVEN_FP_CLASSES = [   # (name, module, attribute, file object kinds it is probed with)
+    ("RecordStreamWriter", "flow.record", "RecordStreamWriter", ("plain", "gzip", "buffered")),
+    ("RecordOutput", "flow.record", "RecordOutput", ("plain", "gzip", "buffered")),
+    ("RecordPrinter", "flow.record", "RecordPrinter", ("plain", "buffered")),     # close() is a no-op: no gzip trailer
+    ("StreamWriter", "flow.record.adapter.stream", "StreamWriter", ("plain", "gzip", "buffered")),
+    ("AvroWriter", "flow.record.adapter.avro", "AvroWriter", ("plain", "gzip", "buffered")),
+    ("LineWriter", "flow.record.adapter.line", "LineWriter", ("plain", "gzip", "buffered")),
+    ("TextWriter", "flow.record.adapter.text", "TextWriter", ("plain", "gzip", "buffered")),
+    ("JsonfileWriter", "flow.record.adapter.jsonfile", "JsonfileWriter", ("text",)),
+]
+
+
+def open_given(kind, path):
+    import gzip
+    import io
+    if kind == "plain":
+        return open(path, "wb")
+    if kind == "gzip":
+        return gzip.GzipFile(path, "wb")
+    if kind == "buffered":
+        return io.BufferedWriter(io.FileIO(path, "wb"), buffer_size=1 << 20)
+    if kind == "text":
+        return open(path, "w")
+    raise ValueError(kind)
+
+
+def given_class(name):
+    import importlib
+    for n, mod, attr, kinds in GIVEN_FP_CLASSES:
+        if n == name:
+            return getattr(importlib.import_module(mod), attr), kinds
+    raise KeyError(name)
+
+
+def observe_given_fp(tmp):
+    """class -> (close() closes the given object, the content on disk is complete after close() while the caller still
+    holds the object), observed with two records written; must agree over the file object kinds"""
+    import gzip
+    out = []
+    for name, _, _, kinds in GIVEN_FP_CLASSES:
+        cls, _ = given_class(name)
+        seen = set()
+        for kind in kinds:
+            p = os.path.join(tmp, "given_%s_%s%s" % (name, kind, ".gz" if kind == "gzip" else ""))
+            fp = open_given(kind, p)
+            w = cls(fp)
+            for i in range(2):
+                w.write(_stdout_probe_record(i))
+            w.close()
+            raw = open(p, "rb").read()
+            try:
+                data = gzip.decompress(raw) if kind == "gzip" else raw
+                if name == "AvroWriter":
+                    import io
+                    import fastavro
+                    n = len(list(fastavro.reader(io.BytesIO(data)))) if data else 0
+                else:
+                    n = data.count(b"rec-A-")
+                complete = n == 2
+            except Exception:
+                complete = False
+            seen.add((bool(fp.closed), complete))
+            try:
+                fp.close()
+            except Exception:
+                pass
+            del w
+        if len(seen) != 1:
+            raise Unsupported("%s treats caller-supplied file objects differently: %s" % (name, sorted(seen)))
+        out.append((name,) + seen.pop())
+    return out
+
+
 def _cross_check(notes, what, observed, recogniser):
     """recognised and different -> Unsupported; not recognised -> note"""
     try:
@@ -958,6 +1033,7 @@ def shapes():
         rot = observe_rotation(tmp)
         stdout_facts = observe_stdout(tmp)
         writer_table = observe_writer_table(tmp)
+        given_fp = observe_given_fp(tmp)
     finally:
         shutil.rmtree(tmp, ignore_errors=True)
 
@@ -1002,7 +1078,7 @@ def shapes():
         rotate_counter=rot["counter"], rotated_name_counter_format=rot["counter_format"],
         stream_close_flushes=stream_close_flushes, split_ge=ge, split_roll=steps,
         stamp_spec=rot["stamp_spec"], rotated_name_format=rot["name_format"], notes=notes,
-        stdout=stdout_facts, writer_table=writer_table))
+        stdout=stdout_facts, writer_table=writer_table, given_fp=given_fp))
     return dict(_SHAPES)
 
 
@@ -1058,6 +1134,10 @@ def gen_writers():
     out += "  end.\n"
     out += "\n(* the writers that write to a path, each with the model adapter it is an instance of (by what it leaves on disk) *)\n"
     out += "Definition writer_table : list (string * adapter) :=\n  %s.\n" % clist(["(%s, %s)" % (cstr(c), k) for c, k in sh["writer_table"]])
+    out += "\n(* writers constructed on a caller-supplied file object, the caller keeping its reference: (class, (close() closes\n"
+    out += "   that object, after close() the content on disk is complete)) -- observed *)\n"
+    out += "Definition given_fp_table : list (string * (bool * bool)) :=\n  %s.\n" % clist(
+        ["(%s, (%s, %s))" % (cstr(n), cbool(a), cbool(b)) for n, a, b in sh["given_fp"]])
     write_if_changed(GEN / "Gen_writers.v", out)
 
 
